@@ -53,6 +53,7 @@ class Report(object):
         self.control_obligations = []
         self.counts = {}
         self.notes = []
+        self.errors = []      # AnalysisErrors of single rules (the other rules still ran)
         self.rules = {}
         self.assumptions = []
         self.trusted = []
@@ -161,7 +162,11 @@ class Report(object):
                   self.prop, self.tier, nob, held, len(violations), len(matched),
                   len(undecided),
                   sum(1 for o in self.control_obligations if o.status == 'violated'), wall))
-        return 1 if new else 0
+        for e in self.errors:
+            print('ANALYSIS-ERROR property=%s %s' % (self.prop, e))
+        if new:
+            return 1
+        return 2 if self.errors else 0
 
     def _write_evidence(self, seed, wall, nob, held, violations, undecided, matched, new):
         os.makedirs(EVIDENCE_DIR, exist_ok=True)
@@ -199,7 +204,7 @@ class Report(object):
                 'flagged': sum(1 for o in self.control_obligations if o.status == 'violated'),
                 'held': sum(1 for o in self.control_obligations if o.status == 'held'),
             },
-            'notes': self.notes,
+            'notes': self.notes + ['analysis error: %s' % e for e in self.errors],
             'samples': samples[:60] or [{'note': 'no obligations'}],
             'exhaustive': True,
         }
